@@ -253,6 +253,8 @@ def run(ck):
         c02_3(ck, prog)
         c02_5(ck, prog)
         c02_6(ck, prog)
+        from rules import C16
+        C16.c16_1(ck, prog, rid='C02.11', utf8_only=True)
         from rules.C14 import signature_pairing
         signature_pairing(ck, prog, rid='C02.4')
         from rules.C01 import c01_10
